@@ -1067,7 +1067,7 @@ pub fn main(tier: Option<&str>) {
          concurrent callers, Found(peer, version) over 5 symmetric peers + the local node and versions {A,B} (duplicates allowed), the four \
          terminating events, Leave(caller); depth 6(8); peers are reduced by symmetry (one representative per answer signature + one fresh peer); \
          run once with opaque versions and once with mergeable transaction versions. layer 2: every subset (2-3) of a version pool per \
-         mergeable kind x every arrival order through the real Network::get_record_from_network. layer 3: every subset (2-3(4)) of the same pools \
+         mergeable kind x every arrival order through the real Network::get_record_from_network. layer 2b: one version reaching the quorum after 1-2 other versions were returned, every majority version x others x arrival sequences x every iteration order of the driver\'s version map (hook). layer 3: every subset (2-3(4)) of the same pools \
          handed to get_record_from_network as a split result whose map iterates in every order. \
          layer 4: the retry loop of get_record_from_network on a paused clock: every sequence of per-attempt answers over 8 (two agreed \
          values, NotEnoughCopies / RecordDoesNotMatch carrying a record, RecordNotFound, QueryTimeout, a mergeable and an unmergeable \
